@@ -11,12 +11,32 @@ pub fn sender(name: &str) -> Addr {
     name.into_addr()
 }
 
+/// The contract a factory-style instantiate handler spawns (rec::resp_spawning): code id 1 of every chain.
+pub mod noop {
+    use sylvia::ctx::InstantiateCtx;
+    use sylvia::cw_std::{Response, StdResult};
+    pub struct Noop;
+    #[sylvia::contract]
+    impl Noop {
+        pub const fn new() -> Self {
+            Noop
+        }
+        #[sv::msg(instantiate)]
+        fn instantiate(&self, _ctx: InstantiateCtx) -> StdResult<Response> {
+            Ok(Response::new())
+        }
+    }
+}
+
 pub fn seeded_app() -> RawApp {
-    RawApp::new(|router, _api, storage| {
+    let mut app = RawApp::new(|router, _api, storage| {
         for s in ["alice", "bob"] {
             router.bank.init_balance(storage, &sender(s), vec![sylvia::cw_std::coin(1_000, "atom"), sylvia::cw_std::coin(1_000, "zeta")]).unwrap();
         }
-    })
+    });
+    let id = app.store_code(Box::new(noop::Noop::new()));
+    assert_eq!(id, 1);
+    app
 }
 
 pub fn funds(n: u64) -> Vec<Coin> {
@@ -39,7 +59,8 @@ pub fn view(app: &RawApp, contract: Option<&Addr>) -> Value {
         let get = |k: &[u8]| dump.iter().find(|(kk, _)| kk.as_slice() == k).map(|(_, v)| String::from_utf8_lossy(v).to_string()).unwrap_or_default();
         let data = app.contract_data(c).ok();
         v["exists"] = json!(true);
-        v["code"] = json!(data.as_ref().map(|d| d.code_id.to_string()).unwrap_or_default());
+        // (code id 1 of every chain is the child contract of mt::noop: the program's own codes are numbered from 1 again)
+        v["code"] = json!(data.as_ref().map(|d| (d.code_id - 1).to_string()).unwrap_or_default());
         v["label"] = json!(data.as_ref().map(|d| d.label.clone()).unwrap_or_default());
         // the admin is reported by the name the history used for it (alice / bob), if it is one of them
         // (no admin: ""; the empty string as the admin: "<empty>")
